@@ -1188,6 +1188,80 @@ def cap3Oracle (c : Cap3) (m' : Manifold3 Float) : String :=
   | some r => s!"fail {r}"
   | none => "pass"
 
+/-! #### 2-D HeightField vs capsule: the sub-detector machine of `contact_manifolds_heightfield_shape` (keys = cell ids) -/
+
+abbrev WM2 := WManifold (Nat × Manifold2 Float) Unit
+
+/-- `ContactManifold::with_data(id1, id2, default)` with `(id1, id2) = if flipped { (0, i) } else { (i, 0) }` -/
+def freshHF (flipped : Bool) (i : Nat) : WM2 := freshCell flipped (0, Manifold2.new) i
+
+structure HFC2 where
+  base : HF2
+  /-- per call: the cells reported by `map_elements_in_local_aabb`, with their end points -/
+  calls : List (List (Nat × V2 Float × V2 Float))
+
+def phfc2 : P HFC2 := do
+  let c ← phf2
+  let calls ← (pN (plist (do let i ← pnat; let a ← pov2; let b ← pov2; pure (i, a, b))) c.poses.length) <|> pure []
+  pure ⟨c, calls⟩
+
+/-- the narrow phase of a cell: `Capsule::new(a, b, 0.0)` against the capsule, through the dispatcher's capsule/capsule generator;
+the flipped arm receives `pos12.inverse()` and hands `pos12.inverse().inverse()` on -/
+def hfcNarrow (c : HF2) (cells : List (Nat × V2 Float × V2 Float)) (P : Iso2 Float) (i : Nat) (m : WM2) : WM2 :=
+  match cells.find? (·.1 == i) with
+  | none => m
+  | some (_, a, b) =>
+    let oa : V2 Float := ⟨0.0, -c.q.x⟩; let ob : V2 Float := ⟨0.0, c.q.x⟩
+    let g := if c.flipped then capsuleCapsule2 ulpsEqF P.inverse.inverse oa ob c.q.y a b 0.0 c.pred m.data.2
+             else capsuleCapsule2 ulpsEqF P a b 0.0 oa ob c.q.y c.pred m.data.2
+    { m with data := (m.data.1, g) }
+
+def fwm2 (m : WM2) : String := s!"{m.subshape1} {m.subshape2} {m.data.1} {fman2 m.data.2}"
+def retag2 (k : Nat) (ms : List WM2) : List WM2 :=
+  (List.range ms.length).zipWith (fun i m => { m with data := (1000 * (k + 1) + i + 1, m.data.2) }) ms
+
+def hfcModel (h : HFC2) : Option String :=
+  if h.base.s2ty != 1 then some "unsupported" else
+  let clr : Nat × Manifold2 Float → Nat × Manifold2 Float := fun d => (d.1, d.2.clear)
+  let rec go (k : Nat) (ws : KWorkspace Nat) (ms : List WM2) : List (Iso2 Float) → List (List (Nat × V2 Float × V2 Float)) → Option (List String)
+    | [], _ => some []
+    | _, [] => none
+    | P :: ps, cells :: cs =>
+      match keyedStep (hfcNarrow h.base cells P) clr (freshHF h.base.flipped) ws ms (cells.map (·.1)) with
+      | none => some ["panic"]
+      | some (ws', ms') =>
+        let line := String.intercalate " " (toString ms'.length :: ms'.map fwm2)
+        (go (k + 1) ws' (retag2 k ms') ps cs).map (line :: ·)
+  (go 0 KWorkspace.new [] h.base.poses h.calls).map (String.intercalate " ")
+
+/-- bookkeeping clauses (one manifold per reported cell, in order, user data following its cell) + every clause of `hf2Oracle` -/
+def hfcOracle (h : HFC2) (outs : List (List (Nat × Nat × Nat × Manifold2 Float))) : String :=
+  if h.base.s2ty != 1 then "skip other-shape-not-a-capsule" else
+  if outs.length != h.base.poses.length || h.calls.length != h.base.poses.length then "fail wrong-number-of-calls" else
+  let rec go (k : Nat) (prev : List (Nat × Nat)) : List (List (Nat × V2 Float × V2 Float)) → List (List (Nat × Nat × Nat × Manifold2 Float)) → Option String
+    | [], _ => none
+    | _, [] => none
+    | cells :: cs, ms :: rest =>
+      let vis := cells.map (·.1)
+      let ids := ms.map fun (s1, s2, _, _) => if h.base.flipped then s2 else s1
+      if !vis.Nodup then some s!"call={k} cell-reported-twice {vis}" else
+      -- the reported end points are those of `segment_at`
+      let badCell := cells.findSome? fun (i, a, b) => match h.base.cells[i]? with
+        | some (some (a', b')) => if fv2 a == fv2 a' && fv2 b == fv2 b' then none else some s!"call={k} cell={i} end-points-differ-from-segment_at"
+        | _ => some s!"call={k} absent-cell-reported {i}"
+      if badCell.isSome then badCell else
+      if ids != vis then some s!"call={k} manifold-cells={ids} reported-cells={vis}" else
+      let badTag := (ms.zip ids).filter fun ((_, _, tag, _), i) =>
+        match prev.find? (·.1 == i) with
+        | some (_, t) => tag != t
+        | none => tag != 0
+      if !badTag.isEmpty then some s!"call={k} manifold-data-not-following-its-cell {badTag.map (·.2)}" else
+      let tags := (List.range ms.length).zipWith (fun j i => (i, 1000 * (k + 1) + j + 1)) ids
+      go (k + 1) tags cs rest
+  match go 0 [] h.calls outs with
+  | some r => s!"fail {r}"
+  | none => hf2Oracle h.base (outs.map fun ms => ms.map fun (s1, s2, _, m) => (s1, s2, m))
+
 /-! #### pfm/pfm pairs whose support features are edges -/
 
 structure Pfm3 where
@@ -1355,6 +1429,11 @@ def handler (fn : String) : Option Handler :=
       model := fun a => run (do let c ← pcap3; pure (fman3 (capsuleCapsule3 ulpsEqF c.pos12 c.a1 c.b1 c.r1 c.a2 c.b2 c.r2 c.pred c.m))) a
       oracle := fun a o => match run pcap3 a with
         | some c => withOut poman3 o (cap3Oracle c)
+        | none => "skip bad-args" }
+  | "hfc2" => some {
+      model := fun a => match run phfc2 a with | some h => hfcModel h | none => none
+      oracle := fun a o => match run phfc2 a with
+        | some h => withOut (pN (plist (do let a ← pnat; let b ← pnat; let t ← pnat; let m ← poman2; pure (a, b, t, m))) h.base.poses.length) o (hfcOracle h)
         | none => "skip bad-args" }
   | "pfm3" => some {
       model := fun _ => some "oracle-only"
